@@ -220,6 +220,12 @@ partial def parseTy (j : Json) : P Ty := do
         | .null => pure none
         | t => some <$> parseTy t
       return .seq (← jstr a[0]!) arg
+    -- `{"vol": <ty or null>}`: `pane.types.ValueOrList[T]` / bare `ValueOrList`
+    if let .ok x := jfield j "vol" then
+      let arg ← match x with
+        | .null => pure none
+        | t => some <$> parseTy t
+      return .valueOrList arg
     if let .ok x := jfield j "tuple" then return .tupleFixed (← (← jarr x).toList.mapM parseTy)
     if let .ok x := jfield j "map" then
       let a ← jarr x
@@ -490,6 +496,7 @@ partial def tyJson : Ty → Json
   | .pattern a => Json.mkObj [("pattern", match a with | some s => .str s | none => .null)]
   | .forwardRef s => Json.mkObj [("fwd", .str s)]
   | .unsupported w => Json.mkObj [("unsupported", .str w)]
+  | .valueOrList a => Json.mkObj [("vol", match a with | some t => tyJson t | none => .null)]
 
 def defaultJson : DefaultKind → Json
   | .missing => .str "missing"
